@@ -53,8 +53,8 @@ class MustDef:
                             self.reads(a, written, f)
                         self.func_body(m, written)
                         n._fd_done = True
-                if isinstance(fn, ast.Name) and fn.id == "hasattr" and len(n.args) == 2:
-                    a0, a1 = n.args
+                if isinstance(fn, ast.Name) and (fn.id == "hasattr" and len(n.args) == 2 or fn.id == "getattr" and len(n.args) == 3):
+                    a0, a1 = n.args[:2]
                     if isinstance(a0, ast.Name) and a0.id == sn and isinstance(a1, ast.Constant):
                         self.read_attr(a1.value, written, f, n.lineno, "hasattr")
             elif isinstance(n, ast.Attribute) and isinstance(n.value, ast.Name) and n.value.id == sn and isinstance(n.ctx, ast.Load):
